@@ -62,6 +62,9 @@ CHECKS = {
     'C20': ('symbolic execution of the real constructors: symbolic values incl. 0/negatives with enumerated None-patterns, lazy kind proxies for create_rating arguments, uuid stub, two-run syntactic identity for restore',
             'rating()/create_rating() store exactly the passed terms (defaults only for None), one fresh id per object; deepcopy keeps mu, sigma, name, id in distinct objects; after a symbolic game, rate() and the three predictions on ratings rebuilt from (mu, sigma) are syntactically identical terms to those on the original objects.',
             TRUST, '6/C20'),
+    'C05': ('symbolic execution of the real rate() with several outcomes of one symbolic game in one path + z3 (lemma abstraction, then full QF_NRA with exp/Phi axioms); TM through function-level lemmas V >= max(0,t-x), -t-x <= V~ <= t-x proved on the real v/vt and instantiated at call sites',
+            'For the listed shapes and all mu, sigma, beta, tau, kappa: sole winners never lose mu, sole losers never gain, members move in proportion to their inflated variance; two teams: loss <= draw <= win, prior between loss and win, a draw never favours the stronger team (TM: beyond the draw-margin term); moving up one place never lowers mu (PL, full pairing); identical teams end ordered by place.',
+            TRUST, '6/C05'),
     'C06': ('symbolic execution of the real rate() from an arbitrary valid prior state + z3 on the lemma abstraction (range lemmas of every product/quotient/primitive) with fall-back to the full term; function-level lemmas W, W~ >= 0 proved on the real w/wt and applied at call sites after discharging their preconditions',
             'Inductive step for all histories: from any valid state, on every path of the listed shapes/outcomes/configurations (default and uninterpreted gamma >= 0, limit_sigma on/off) sigma\' > 0, sigma\'^2 <= sigma^2 + tau^2 and sigma\' <= sigma under limit_sigma. TM claimed for draw margins t = kappa/c <= 1e-2.',
             TRUST + ' Interval transfer rules of the lemma store (sx/core.py f_add/f_mul/f_inv/f_max, outward rounded) are trusted code.', '6/C06'),
@@ -72,6 +75,7 @@ CHECKS = {
 }
 
 NOT_YET = {}
+assert True
 
 
 def main():
